@@ -157,11 +157,15 @@ class moduint(object):
     def __hex__(self):
         return hex(self.arg)
     def __abs__(self):
-        return abs(self.arg)
+        return self.__class__(abs(self.arg))
     def __rpow__(self, v):
-        return v**self.arg
+        return self.__class__(v**self.arg)
     def __pow__(self, v):
-        return self.__class__(self.arg**v)
+        if isinstance(v, moduint):
+            cls = self.maxcast(v)
+            return cls(self.arg**v.arg)
+        else:
+            return self.__class__(self.arg**v)
 
 class modint(moduint):
     def __init__(self, arg):
